@@ -96,7 +96,40 @@ func c11Ops(w *World, d dualAuth, rng *vbase.Rng, length int, capacity uint) []c
 		return ps
 	}
 	for len(ops) < length {
-		switch rng.Intn(12) {
+		switch rng.Intn(13) {
+		case 12: // framing twins: a valid batch, then the same signature for a batch with the same signers whose messages are cut elsewhere
+			if n >= 2 {
+				ids := pickIDs(2)
+				i, j := ids[0], ids[1]
+				if i > j {
+					i, j = j, i
+				}
+				cnt := 2
+				u32 := func(x uint32) []byte { return hotstuff.ID(x).ToBytes() }
+				kind := rng.Intn(6)
+				var frame []byte // what a key derivation may put between two entries, apart from the entry's own length
+				switch kind {
+				case 0:
+					frame = j.ToBytes()
+				case 1:
+					frame = append(j.ToBytes(), hotstuff.View(cnt).ToBytes()...)
+				case 2:
+					frame = append(j.ToBytes(), u32(uint32(cnt))...)
+				case 3:
+					frame = append(j.ToBytes(), hotstuff.View(0).ToBytes()...)
+				case 4:
+					frame = append(hotstuff.View(cnt).ToBytes(), j.ToBytes()...)
+				case 5:
+					frame = append([]byte{0}, j.ToBytes()...)
+				}
+				P, R, mj := rng.Bytes(rng.Range(0, 5)), rng.Bytes(rng.Range(0, 5)), rng.Bytes(rng.Range(1, 6))
+				a := map[hotstuff.ID][]byte{i: append(append(append([]byte(nil), P...), frame...), R...), j: mj}
+				b := map[hotstuff.ID][]byte{i: P, j: append(append(append([]byte(nil), R...), frame...), mj...)}
+				sig := w.assemble(batchPieces([]hotstuff.ID{i, j}, a), nil, 0)
+				bpool = append(bpool, seenBatch{[]hotstuff.ID{i, j}, a})
+				ops = append(ops, c11Op{Kind: "batch", Class: "honest", Sig: sig, Batch: a})
+				ops = append(ops, c11Op{Kind: "batch", Class: fmt.Sprintf("replay-batch-recut-across-frame-%d", kind), Sig: w.assemble(batchPieces([]hotstuff.ID{i, j}, a), nil, 0), Batch: b})
+			}
 		case 0, 1: // fresh honest (multi-)signature
 			ids := pickIDs(rng.Range(1, n))
 			msg := msgs[rng.Intn(len(msgs))]
@@ -239,7 +272,7 @@ func c11Ops(w *World, d dualAuth, rng *vbase.Rng, length int, capacity uint) []c
 
 func c11Diff(p vbase.Params, r *vbase.Result) {
 	r.Rule = "two authorities over the same keys and the same scheme object, one with core.WithCache(c), c in {1,2,3,5,8,100}, one without; identical sequences of verify / batch-verify operations " +
-		"(honest, combined, replayed unchanged, replayed with altered message / batch (message changed, re-keyed, entry added/removed, same concatenation) / signer labels / bit field, own Sign results, " +
+		"(honest, combined, replayed unchanged, replayed with altered message / batch (message changed, re-keyed, entry added/removed, same concatenation, messages re-cut across six plausible entry framings) / signer labels / bit field, own Sign results, " +
 		"filler traffic forcing eviction); oracle: the uncached verdict (nil / non-nil) on every operation; non-trivial: replay whose uncached verdict is invalid; distinct: (scheme,capacity,class,uncached verdict,position class)"
 	caps := []uint{1, 2, 3, 5, 8, 100}
 	seqs := p.N(240, 20000)
